@@ -414,8 +414,8 @@ K("C01/spec/partition", ["C01", "C06"], LM + "c01_classes_partition_pseudo_legal
   "rules: every pseudo-legal move lies in exactly one generator class; captures (destination occupied or en passant) and non-captures partition them; non-captures split into promotions and non-promotions", timeout=3000)
 
 CH = "chain::verif_kani::"
-K("C13/chain/equality", ["C13"], CH + "c13_chain_equality", ["<BaseMoveChain as PartialEq>::eq"],
-  "for all pairs of chains with arbitrary start positions, arbitrary recorded moves (<= 3 each) and arbitrary stored outcomes: a == b iff start positions, move lists and stored outcomes are equal",
+K("C13/chain/equality", ["C13"], "chain::verif_kani_c::c13_chain_equality_v2", ["<BaseMoveChain as PartialEq>::eq"],
+  "for all pairs of chains with arbitrary start positions, arbitrary live boards, arbitrary recorded moves (<= 3 each) and arbitrary stored outcomes: a == b iff start positions, move lists and stored outcomes are equal",
   bounded="move lists of length <= 3 (std iterator zip/all; everything else unbounded)", timeout=3000, mem_gb=16)
 K("C17/walker/op-sequences", ["C17"], CH + "c17_walker_op_sequences_fixed_game", ["Walker::next", "Walker::prev", "Walker::start", "Walker::end", "Walker::set_board_pos", "BaseMoveChain::walk", "BaseMoveChain::push"],
   "for one fixed 4-ply game and EVERY sequence of 5 operations from {next, prev, start, end}: each returned move comes with exactly the position that preceded it (raw fields, hash, combined occupancy), None exactly at the ends, and the chain is untouched (real make/unmake code)",
